@@ -186,3 +186,327 @@ func (e *E3) g7(r *Result, prefix string, f *Flow) {
 var reviewedOptional = map[string]string{
 	"fdo/serviceinfo.UnchunkWriter.w|fdo/serviceinfo.UnchunkWriter.Write": "documented API contract for module implementers (NextServiceInfo precedes Write); the order of these calls is fixed by module code, not by peer bytes",
 }
+
+// ---------------------------------------------------------------------------
+// G7b — optional values handed on through parameters.
+//
+// G7 only sees a call through a value loaded from the field in the very
+// function that loads it. A configuration hook that may be absent (an optional
+// hash.Hash, say) is usually loaded in one function and used two calls further
+// down. The belief and the obligation are therefore carried over static calls:
+//
+//   1. a parameter of interface / function type that its own function compares
+//      with nil — other than as a `== nil -> panic` assertion — is NIL-TOLERANT:
+//      the author expects callers to pass nil;
+//   2. every struct field (and every caller parameter, transitively) that flows
+//      into a nil-tolerant parameter at a static call site MAY BE NIL;
+//   3. every parameter that receives a may-be-nil field or parameter at a static
+//      call site MAY BE NIL as well (transitively);
+//   4. every method invoke / call whose receiver or function value derives —
+//      through phis, interface conversions and local copies — from a may-be-nil
+//      parameter must hold a non-nil fact for that value, or for every one of
+//      the values merged into it.
+
+type paramKey struct {
+	fn  *ssa.Function
+	idx int
+}
+
+// valueOrigins walks v back through phis, conversions and local copies and
+// collects the parameters and struct fields it may come from.
+func valueOrigins(v ssa.Value, depth int, params map[*ssa.Parameter]bool, fields map[string]bool, seen map[ssa.Value]bool) {
+	if depth > 6 || seen[v] {
+		return
+	}
+	seen[v] = true
+	switch x := v.(type) {
+	case *ssa.Parameter:
+		params[x] = true
+	case *ssa.UnOp:
+		if x.Op != token.MUL {
+			return
+		}
+		switch a := x.X.(type) {
+		case *ssa.FieldAddr:
+			if f := fieldName(a.X.Type(), a.Field); f != "" {
+				fields[f] = true
+			}
+		case *ssa.Alloc:
+			for _, ref := range *a.Referrers() {
+				if st, ok := ref.(*ssa.Store); ok && st.Addr == a {
+					valueOrigins(st.Val, depth+1, params, fields, seen)
+				}
+			}
+		}
+	case *ssa.Phi:
+		for _, e := range x.Edges {
+			valueOrigins(e, depth+1, params, fields, seen)
+		}
+	case *ssa.ChangeInterface:
+		valueOrigins(x.X, depth+1, params, fields, seen)
+	case *ssa.ChangeType:
+		valueOrigins(x.X, depth+1, params, fields, seen)
+	}
+}
+
+func paramIndex(p *ssa.Parameter) int {
+	for i, q := range p.Parent().Params {
+		if q == p {
+			return i
+		}
+	}
+	return -1
+}
+
+func (e *E3) g7b(r *Result, prefix string, f *Flow) {
+	p := e.p
+	rule := prefix + ".optional-params-checked"
+	r.rule(rule, "G7b (contradiction rule across calls): a parameter of interface or function type that its function compares with nil (not as a panic assertion) is nil-tolerant; struct fields and caller parameters flowing into it at static call sites may be nil, and so may every parameter they are handed on to; every invoke / call through a value derived from a may-be-nil parameter is dominated by a non-nil fact for that value or for each value merged into it")
+	// 1. nil-tolerant parameters
+	tolerant := map[paramKey]string{}
+	for _, fn := range e.order {
+		if !f.Region[fn] {
+			continue
+		}
+		for _, b := range fn.Blocks {
+			for _, in := range b.Instrs {
+				bo, ok := in.(*ssa.BinOp)
+				if !ok || (bo.Op != token.EQL && bo.Op != token.NEQ) {
+					continue
+				}
+				var x ssa.Value
+				if c, ok := bo.Y.(*ssa.Const); ok && c.IsNil() {
+					x = bo.X
+				} else if c, ok := bo.X.(*ssa.Const); ok && c.IsNil() {
+					x = bo.Y
+				}
+				if x == nil || !optionalKind(x.Type()) {
+					continue
+				}
+				asserts := false
+				for _, ref := range *bo.Referrers() {
+					ifi, ok := ref.(*ssa.If)
+					if !ok {
+						continue
+					}
+					nilSucc := ifi.Block().Succs[0]
+					if bo.Op == token.NEQ {
+						nilSucc = ifi.Block().Succs[1]
+					}
+					for _, y := range nilSucc.Instrs {
+						if _, ok := y.(*ssa.Panic); ok {
+							asserts = true
+						}
+					}
+				}
+				if asserts {
+					continue
+				}
+				ps, fs := map[*ssa.Parameter]bool{}, map[string]bool{}
+				valueOrigins(x, 0, ps, fs, map[ssa.Value]bool{})
+				for q := range ps {
+					k := paramKey{fn, paramIndex(q)}
+					if _, had := tolerant[k]; !had {
+						tolerant[k] = p.instrPos(in)
+					}
+				}
+			}
+		}
+	}
+	// static call sites of the region, once
+	type site struct {
+		caller *ssa.Function
+		callee *ssa.Function
+		args   []ssa.Value
+	}
+	var sites []site
+	for _, fn := range e.order {
+		if !f.Region[fn] {
+			continue
+		}
+		for _, b := range fn.Blocks {
+			for _, in := range b.Instrs {
+				call, ok := in.(ssa.CallInstruction)
+				if !ok {
+					continue
+				}
+				cal := p.body(call.Common().StaticCallee())
+				if cal == nil || len(cal.Params) != len(call.Common().Args) {
+					continue
+				}
+				sites = append(sites, site{fn, cal, call.Common().Args})
+			}
+		}
+	}
+	// 2. backwards: fields and caller parameters flowing into tolerant parameters
+	mayNilField := map[string]string{}
+	believed := map[paramKey]string{}
+	for k, w := range tolerant {
+		believed[k] = w
+	}
+	for changed := true; changed; {
+		changed = false
+		for _, s := range sites {
+			for i, a := range s.args {
+				w, ok := believed[paramKey{s.callee, i}]
+				if !ok || !optionalKind(a.Type()) {
+					continue
+				}
+				ps, fs := map[*ssa.Parameter]bool{}, map[string]bool{}
+				valueOrigins(a, 0, ps, fs, map[ssa.Value]bool{})
+				for fld := range fs {
+					if _, had := mayNilField[fld]; !had {
+						mayNilField[fld] = w
+						changed = true
+					}
+				}
+				for q := range ps {
+					k := paramKey{s.caller, paramIndex(q)}
+					if _, had := believed[k]; !had {
+						believed[k] = w
+						changed = true
+					}
+				}
+			}
+		}
+	}
+	// 3. forwards: parameters that receive a may-be-nil field or parameter
+	mayNil := map[paramKey]string{}
+	for changed := true; changed; {
+		changed = false
+		for _, s := range sites {
+			for i, a := range s.args {
+				if !optionalKind(a.Type()) {
+					continue
+				}
+				k := paramKey{s.callee, i}
+				if _, had := mayNil[k]; had {
+					continue
+				}
+				ps, fs := map[*ssa.Parameter]bool{}, map[string]bool{}
+				valueOrigins(a, 0, ps, fs, map[ssa.Value]bool{})
+				why := ""
+				for fld := range fs {
+					if w, ok := mayNilField[fld]; ok {
+						why = fmt.Sprintf("field %s (flows into a parameter compared with nil at %s)", fld, w)
+					}
+				}
+				for q := range ps {
+					if w, ok := mayNil[paramKey{s.caller, paramIndex(q)}]; ok {
+						why = w
+					}
+				}
+				if why != "" {
+					mayNil[k] = why
+					changed = true
+				}
+			}
+		}
+	}
+	// 4. obligations
+	nonNil := func(st AtomSet, v ssa.Value) bool {
+		return st.Has(Atom("nn:"+v.Name())) || st.Has(Atom("v:nn:"+canon(v)))
+	}
+	var established func(st AtomSet, v ssa.Value, depth int) bool
+	established = func(st AtomSet, v ssa.Value, depth int) bool {
+		if nonNil(st, v) {
+			return true
+		}
+		if depth > 4 {
+			return false
+		}
+		switch x := v.(type) {
+		case *ssa.Phi:
+			for _, ed := range x.Edges {
+				if !established(st, ed, depth+1) {
+					return false
+				}
+			}
+			return len(x.Edges) > 0
+		case *ssa.ChangeInterface:
+			return established(st, x.X, depth+1)
+		case *ssa.ChangeType:
+			return established(st, x.X, depth+1)
+		case *ssa.MakeInterface, *ssa.Function, *ssa.MakeClosure:
+			return true
+		case *ssa.Const:
+			return !x.IsNil()
+		}
+		return false
+	}
+	for _, fn := range e.order {
+		if !f.Region[fn] {
+			continue
+		}
+		seen := map[string]int{}
+		for _, b := range fn.Blocks {
+			for _, in := range b.Instrs {
+				call, ok := in.(ssa.CallInstruction)
+				if !ok {
+					continue
+				}
+				v := call.Common().Value
+				switch v.(type) {
+				case *ssa.Function, *ssa.Builtin, *ssa.MakeClosure:
+					continue
+				}
+				if !optionalKind(v.Type()) {
+					continue
+				}
+				ps, fs := map[*ssa.Parameter]bool{}, map[string]bool{}
+				valueOrigins(v, 0, ps, fs, map[ssa.Value]bool{})
+				var q *ssa.Parameter
+				why := ""
+				st := f.StateAt(in)
+				// name the first may-be-nil parameter that lacks a non-nil fact,
+				// or else the first may-be-nil one
+				var names []*ssa.Parameter
+				for c := range ps {
+					if _, ok := mayNil[paramKey{fn, paramIndex(c)}]; ok {
+						names = append(names, c)
+					}
+				}
+				sort.Slice(names, func(i, j int) bool { return names[i].Name() < names[j].Name() })
+				for _, c := range names {
+					if q == nil || (established(st, q, 0) && !established(st, c, 0)) {
+						q, why = c, mayNil[paramKey{fn, paramIndex(c)}]
+					}
+				}
+				if q == nil {
+					continue
+				}
+				construct := fmt.Sprintf("call through parameter %s of %s", q.Name(), p.FuncName(fn))
+				seen[construct]++
+				if seen[construct] > 1 {
+					construct = fmt.Sprintf("%s #%d", construct, seen[construct])
+				}
+				okv := established(st, v, 0)
+				detail := "non-nil established on every path"
+				if reason, listed := reviewedOptionalParam[q.Name()+"|"+p.FuncName(fn)]; !okv && listed && seen[construct] == 1 {
+					okv, detail = true, "reviewed: "+reason
+				}
+				if !okv {
+					detail = "parameter may be nil: it receives " + why + "; this call is not dominated by a nil check"
+				}
+				r.table(p, rule, construct, p.instrPos(in), okv, detail)
+			}
+		}
+	}
+	if debugDump == "g7" {
+		for k, w := range tolerant {
+			fmt.Println("TOLERANT", p.FuncName(k.fn), k.idx, w)
+		}
+		for k, w := range mayNilField {
+			fmt.Println("MAYNILFIELD", k, w)
+		}
+		for k, w := range mayNil {
+			fmt.Println("MAYNILPARAM", p.FuncName(k.fn), k.idx, w)
+		}
+	}
+}
+
+// reviewedOptionalParam: parameter|function -> reason the first call through it
+// needs no nil check.
+var reviewedOptionalParam = map[string]string{
+	"h|fdo.hmacHash": "h.Size() precedes the nil check, so the check is dead and a nil h panics; but which hash is passed is chosen by min(device key size, owner key size) or by the stored credential, and the field documentation requires HmacSha384 whenever the device key is 384-bit, so no peer bytes select a nil h in a supported configuration (triage: DESIGN section 5)",
+}
